@@ -195,6 +195,27 @@ def run(prog, rep):
                         why = "saturation search: the first variable whose update is not empty (a no-op update is skipped; the limit is unchanged)"
                     elif (f is en.fn or f.path.startswith(E.ALG)) and "compute_valid_domain_for_var" in pt(st.args[0]):
                         why = "empty-universe shortcut of a domain quantifier (C02-R1 gives the values; they agree with the generic branch on colours with an empty domain)"
+                if why is None and (st.kind == "op" or l == "is_empty"):
+                    # the zero-iteration case of a stabilisation loop spelled out as a guard (`if start == empty { return start }`), directly
+                    # or through a small predicate helper: the loop itself leaves after zero rounds for an empty start (its previous
+                    # value starts empty), so the guard decides nothing new
+                    nz_ = norm.Normalizer()
+                    heng = terms.Engine(prog, inline=True, hooks=E.eval_hooks())
+                    users = [f] + [prog.fns[q_] for q_, outs in sorted(edges.items()) if f.qual in outs and q_ != f.qual]
+                    n_guards = 0
+                    n_calls = 0
+                    for g_ in users:
+                        sg = heng.summary(g_)
+                        rets_ = [nz_(sg.ret)] if sg is not None and sg.ret is not None else []
+                        n_guards += sum(len(sem.zero_iteration_guards(r_)) for r_ in rets_)
+                        if g_ is not f:
+                            n_calls += len([x for x in eng.summary(g_).sites if x.kind in ("call", "mcall") and isinstance(x.callee, str)
+                                            and prog.resolve_local(g_.crate, x.callee) is f])
+                    is_pred_helper = f is not en.fn and str(f.ret_ty if hasattr(f, "ret_ty") else "") in ("bool", "") and s.ret is not None \
+                        and nz_(s.ret) == nz_(st.term if isinstance(st.term, tuple) else ("bin", st.name, st.args[0], st.args[1]))
+                    if (is_pred_helper and n_calls and n_guards >= n_calls) or (not is_pred_helper and n_guards and
+                                                                                 any(nz_(st.term) == c_ for c_ in sem.zero_iteration_guards(nz_(heng.summary(f).ret)))):
+                        why = "zero-iteration guard of a stabilisation loop (an empty start leaves the loop after zero rounds anyway)"
                 rep.check(why is not None, "C20-R2", f"{f.name}/{l or st.name}@{st.ordinal}", st.where(), why or "",
                           f"colour-global predicate `{l or st.name}` on a coloured set in {f.path} (reachable from eval_node) is neither a fixed-point termination test nor the "
                           "empty-universe shortcut: a decision taken for all colours at once makes one colour's answer depend on the others")
